@@ -93,7 +93,6 @@ func (r *runner) block(dt int64) {
 
 var amtGrid = []int64{100, 101, 150, 333, 999, 1000, 2401, 5000, 120, 200}
 var badAmt = []int64{1, 99}
-var lifeGrid = []int64{0, 6, 60, 3600, 86400, 90000}
 
 func (r *runner) orders(pred func(o M) bool) []M {
 	out := []M{}
@@ -426,6 +425,64 @@ func (r *runner) randomStep(rng *sim.Rng, c cfg) {
 	}
 }
 
+// mmCycle: a market-making order set is placed, partially filled by a smaller crossing order of another user,
+// and then replaced or cancelled by its owner (the "earlier MM orders" of C07 in all their states).
+func (r *runner) mmCycle(rng *sim.Rng, c cfg) {
+	app := c.apps[rng.Intn(len(c.apps))]
+	prs := c.pairsOf[app]
+	pair := prs[rng.Intn(len(prs))]
+	for _, p := range prs { // prefer app id = pair id half of the time (the other half exercises the id-exchange axis)
+		if p == app && rng.Intn(2) == 0 {
+			pair = p
+		}
+	}
+	ctr := r.centre(app, pair)
+	tick := func(p int64) int64 {
+		u := int64(1)
+		for q := p; q >= 10000; q /= 10 {
+			u *= 10
+		}
+		return p / u * u
+	}
+	owner, other := Users[rng.Intn(3)], Users[rng.Intn(3)]
+	for other == owner {
+		other = Users[rng.Intn(3)]
+	}
+	life := r.w.Pars[app-1].MaxLife
+	amt := []int64{600, 1000, 2000}[rng.Intn(3)]
+	mid := tick(ctr)
+	r.step("MMOrder", M{"u": owner, "app": app, "pair": pair, "sellAmt": amt, "minSell": mid, "maxSell": tick(ctr * 103 / 100),
+		"buyAmt": amt, "minBuy": tick(ctr * 97 / 100), "maxBuy": mid, "life": life})
+	r.block(6)
+	// a smaller crossing order: buys from the cheapest sell tick / sells into the highest buy tick
+	q := amt / 7
+	if q < 100 {
+		q = 100
+	}
+	if rng.Intn(2) == 0 {
+		price := tick(ctr * 102 / 100)
+		offer := (price*q+PS-1)/PS*12/10 + 2
+		r.step("LimitOrder", M{"u": other, "app": app, "pair": pair, "dir": "B", "price": price, "amt": q, "offer": offer, "life": life})
+	} else {
+		price := tick(ctr * 98 / 100)
+		r.step("LimitOrder", M{"u": other, "app": app, "pair": pair, "dir": "S", "price": price, "amt": q, "offer": q + q/5 + 1, "life": life})
+	}
+	r.block(6)
+	if r.w.Pars[app-1].Batch > 1 {
+		r.block(6)
+	}
+	switch rng.Intn(3) {
+	case 0:
+		r.step("CancelMM", M{"u": owner, "app": app, "pair": pair})
+	case 1:
+		r.step("MMOrder", M{"u": owner, "app": app, "pair": pair, "sellAmt": amt / 2, "minSell": mid, "maxSell": tick(ctr * 102 / 100),
+			"buyAmt": int64(0), "minBuy": int64(0), "maxBuy": int64(0), "life": life})
+	default:
+		r.step("MMOrder", M{"u": owner, "app": app, "pair": pair, "sellAmt": amt, "minSell": tick(ctr * 101 / 100), "maxSell": tick(ctr * 104 / 100),
+			"buyAmt": amt, "minBuy": tick(ctr * 96 / 100), "maxBuy": tick(ctr * 99 / 100), "life": life})
+	}
+}
+
 // drain cancels everything that is live so that "nothing remains in escrow" is evaluated on empty books.
 func (r *runner) drain(c cfg) {
 	r.block(6)
@@ -491,8 +548,6 @@ func scriptResidue(lg *sim.Log, base *World, mm bool) {
 		}
 		r.step("LimitOrder", M{"u": u, "app": int64(1), "pair": int64(1), "dir": dir, "price": price, "amt": amt, "offer": offer, "life": int64(3600)})
 	}
-	first := true
-	_ = first
 	mmSave := mm
 	mm = false // the older order is a limit order in both variants (one MM order set per owner and pair)
 	lo("u1", "S", 9000, 200)
@@ -553,7 +608,13 @@ func driveRandom(lg *sim.Log, base *World, seed int64, runs, steps int) {
 		if rng.Intn(3) == 0 {
 			r.step("CreatePair", M{"u": "u1", "app": c.apps[0], "base": "uaa", "quote": "ubb"}) // duplicate
 		}
+		cyc := []int{steps / 4, steps * 2 / 3}
 		for r.n < steps {
+			if c.mm && len(cyc) > 0 && r.n >= cyc[0] {
+				cyc = cyc[1:]
+				r.mmCycle(rng, c)
+				continue
+			}
 			r.randomStep(rng, c)
 		}
 		r.drain(c)
@@ -691,6 +752,53 @@ func explore(lg *sim.Log, base *World, al alphabet, budget, maxDepth int) (execu
 	return executed, len(seen)
 }
 
+// replay re-executes a recorded path (replay file written by bin/check for a VIOLATION: header line, then the
+// nodes root -> failing node) on a fresh application and reports, per step, whether result and projected state
+// are reproduced.
+func replay(path string) int {
+	nodes, err := sim.ReadNDJSON(path)
+	if err != nil {
+		fmt.Fprintln(os.Stderr, err)
+		return 2
+	}
+	base := NewWorld(DefaultPars(), 50000000)
+	lg := &sim.Log{}
+	var r *runner
+	same := true
+	for i, n := range nodes {
+		a, _ := n["a"].(string)
+		if a == "" {
+			fmt.Printf("replaying: %v\n", n)
+			continue
+		}
+		if a == "Init" {
+			r = newRunner(lg, base, "replay")
+			continue
+		}
+		if r == nil {
+			fmt.Fprintln(os.Stderr, "replay file does not start with an Init node")
+			return 2
+		}
+		res := r.step(a, normArgs(n["args"]))
+		wantOK, _ := n["res"].(map[string]interface{})["ok"].(bool)
+		gotOK, _ := res["ok"].(bool)
+		var want, got interface{}
+		b1, _ := json.Marshal(n["st"])
+		b2, _ := json.Marshal(r.st)
+		_ = json.Unmarshal(b1, &want)
+		_ = json.Unmarshal(b2, &got)
+		eq := hashOf(want) == hashOf(got)
+		fmt.Printf("%3d %-18s ok=%v (recorded %v) state %s\n", i, a, gotOK, wantOK, map[bool]string{true: "reproduced", false: "DIFFERS"}[eq])
+		same = same && eq && gotOK == wantOK
+	}
+	if same {
+		fmt.Println("replay: the recorded path is reproduced exactly")
+		return 0
+	}
+	fmt.Println("replay: the path is NOT reproduced (different tree or nondeterminism)")
+	return 1
+}
+
 func Main(args []string) int {
 	fs := flag.NewFlagSet("liquidity", flag.ExitOnError)
 	out := fs.String("out", "liquidity.ndjson", "output tree log")
@@ -700,7 +808,11 @@ func Main(args []string) int {
 	model := fs.String("model", "", "file with the alphabet lines printed by MC_Liquidity")
 	budget := fs.Int("budget", 1500, "node budget of the exhaustive exploration per alphabet")
 	depth := fs.Int("depth", 6, "depth bound of the exhaustive exploration")
+	rp := fs.String("replay", "", "re-execute a recorded path (replays/*.ndjson) and compare")
 	fs.Parse(args)
+	if *rp != "" {
+		return replay(*rp)
+	}
 
 	lg := &sim.Log{}
 	base := NewWorld(DefaultPars(), 50000000)
